@@ -49,7 +49,7 @@ manifest = {
         "name": "vmc",
         "path": "/verif/mc",
         "serves_properties": [c["property_id"] for c in checks],
-        "kind_free_text": "hand-written Go explicit-state explorer over the real emulator code (complete finite products sharded over 16 workers; breadth-first closure with canonical-state de-duplication and snapshot/replay successors; deviation-bounded event interleaving), lock-step reference models in Go, replay artefacts, known-finding classification",
+        "kind_free_text": "hand-written Go explicit-state explorer over the real emulator code (complete finite products sharded over 16 workers; breadth-first closure with canonical-state de-duplication and snapshot/replay successors; deviation-bounded event interleaving), lock-step reference models in Go, replay artefacts (including failures that need a history on the same instance or a second instance in the process), known-finding classification; for the timer and the interrupt/HALT control machine additionally TLA+ models checked by TLC whose complete state graphs are replayed edge by edge on the implementation",
     }],
     "checks": checks,
     "not_applicable": [{"property_id": p, "reason": not_applicable.get(p, "check not built yet in this session (claimed in DESIGN.md; work in progress)")} for p in props if p not in claimed],
